@@ -184,6 +184,11 @@ def build_funcs(ck, imms, quick):
             for t in ("i8", "u8", "i16", "u16", "i32", "u32", "i64"):
                 g.add(f"btld:{t}:{kind}", "i_i", f"  alloca p, 32\n  mov i64:8(p), a\n  mov x, {t}:8(p)\n  {kind} @t, x\n" + tailk,
                       locs="i64:r, i64:p, i64:x", shape=f"{kind} ld {t} far{far}")
+    # bt/bf with an immediate operand (folded by the simplifier: the short forms look at the low half only)
+    for kind in ("bt", "bf", "bts", "bfs"):
+        for im in (0, 1, 2, 5, 0xffffffff, 0x100000000, 0x100000001, 0x7fffffff00000000, 0xffffffff00000000, 0x8000000000000000):
+            sim = im - (1 << 64) if im >> 63 else im
+            g.add(f"btimm:{kind}", "i_i", f"  {kind} @t, {sim}\n  mov r, 0\n  ret r\n@t:\n  mov r, 1\n  ret r", fixed_b=im, shape=f"{kind} imm")
     for o in ("add", "sub", "mul", "umul"):
         for short in (0, 1):
             op = o + "o" + ("s" if short else "")
